@@ -71,10 +71,11 @@ def rule_a(prog, rep):
             return 'rec'
         if c.endswith('subscribers::add_all_children'):
             return 'all'
-        if short(c) == 'extend':
+        if short(c) in ('extend', 'extend_from_slice', 'append') and 'Vec' in c:
             return 'collect'
         return None
-    loops = [nd for nd, a in crate.walk_fn(f) if nd.get('k') == 'for']
+    # the loop over the key segments: `for elem in remaining_path` or `while let Some((elem, tail)) = remaining_path.split_first()`
+    loops = [nd for nd, a in crate.walk_fn(f) if nd.get('k') in ('for', 'loop')]
     if len(loops) != 1:
         raise AnchorMissing('the loop over key segments in add_matches')
     tr = Tracer(crate, classify)
@@ -83,6 +84,8 @@ def rule_a(prog, rep):
     bad = []
     for (ex, t, v) in body:
         tb = [base(x) for x in t]
+        if loops[0].get('k') == 'loop' and ex.startswith('break') and not [x for x in tb if x.startswith('get') or x in ('rec', 'all', 'collect')]:
+            continue     # the `None` exit of `while let Some(..) = rest.split_first()`: no more segments
         # each lookup happens on every path through an iteration (a `return` may only follow all three)
         for g in ('get?', 'get#', 'getL'):
             if tb.count(g) != 1:
@@ -117,7 +120,18 @@ def rule_a(prog, rep):
             any(x.get('k') == 'lit' and x['v'].get('v') == 1 for x, _ in walk(r['e'].get('i', {})))
     adv = [nd for nd, a in walk(loops[0]['body']) if nd.get('k') == 'assign' and _self_tail(nd)]
     adv_ok = len(adv) == 1 and 'param(remaining_path)' in ''.join(b.origins(adv[0]['l']))
-    first_stmt = loops[0]['body']['stmts'][0] if loops[0]['body'].get('stmts') else None
+    if not adv:
+        # `while let Some((elem, tail)) = rest.split_first() { rest = tail; .. }`
+        adv = [nd for nd, a in walk(loops[0]['body']) if nd.get('k') == 'assign' and nd['l'].get('k') == 'path' and
+               any('split_first' in x and x.endswith('[1]') for x in b.origins(nd['r']))]
+        adv_ok = len(adv) == 1 and any('param(remaining_path)' in x or 'split_first' in x for x in b.origins(adv[0]['l']))
+    stmts_ = loops[0]['body'].get('stmts') or []
+    # (a `while let` loop is `loop { match .. { Some(..) => { body } } }`: look for the first statement of the innermost body)
+    first_stmt = stmts_[0] if stmts_ else None
+    if adv and first_stmt is not adv[0]:
+        for nd_, a_ in walk(loops[0]['body']):
+            if nd_.get('k') == 'block' and nd_.get('stmts') and nd_['stmts'][0] is adv[0]:
+                first_stmt = adv[0]
     if len(rec) == 1 and adv_ok and first_stmt is adv[0] and rec[0][0]['args'][1].get('id') == adv[0]['l'].get('id'):
         rep.ok('C04.a', 'add_matches:tail', loc(f, rec[0][0]), 'recursion on the `?` child continues with the tail of the key')
     else:
@@ -135,7 +149,7 @@ def rule_a(prog, rep):
     cs = {short(callee(nd)) for nd, a in crate.walk_fn(g) if nd.get('k') == 'call'}
     inloop = [nd for nd, a in crate.walk_fn(g) if nd.get('k') == 'call' and callee(nd).endswith('add_all_children')
               and any(x.get('k') == 'for' for x in a)]
-    if 'extend' in cs and inloop:
+    if cs & {'extend', 'extend_from_slice', 'append'} and inloop:
         rep.ok('C04.a', 'add_all_children', g.loc, 'collects the node\'s subscribers and recurses into every child')
     else:
         rep.violation('C04.a', 'add_all_children', g.loc, 'does not collect own subscribers and all children', key='C04.a/add_all_children')
@@ -298,7 +312,9 @@ def rule_c(prog, rep):
     arm = _arm_of(_keyseg_match(crate, fc), 'MultiWildcard')
     zs = any(nd.get('k') == 'call' and short(callee(nd)) == 'value' and 'Node' in callee(nd) for nd, a in walk(arm['body']))
     f = crate.fn('subscribers::add_matches')
-    loops = [nd for nd, a in crate.walk_fn(f) if nd.get('k') == 'for']
+    loops = [nd for nd, a in crate.walk_fn(f) if nd.get('k') in ('for', 'loop')]
+    if len(loops) != 1:
+        raise AnchorMissing('the loop over key segments in add_matches')
     zsub = False
     for nd, anc in crate.walk_fn(f):
         if nd.get('k') == 'call' and short(callee(nd)) == 'get' and 'MultiWildcard' in str(nd['args'][1])[:300]:
